@@ -553,6 +553,7 @@ impl Sim {
                 "supq": n.sup_q.iter().cloned().collect::<Vec<String>>(),
                 "supdead": self.sup_dead.get(&n.name).cloned().unwrap_or(false),
                 "data": if self.trace_data { n.node.dump() } else { json!({}) },
+                "snapq": n.node.dbs.to_snapshot.read().map(|q| q.iter().map(|(d, r)| json!([d, r])).collect::<Vec<J>>()).unwrap_or_default(),
             }));
         }
         let mut links = vec![];
